@@ -22,6 +22,10 @@ for d in $ROOT/seeded/*/; do
   grep -q '"superseded"' "$d/meta.json" 2>/dev/null && continue
   k=$((k+1))
   [ $((k % nshards)) -ne "$shard" ] && continue
+  # NEW_NAMES="F17 F18": changes to be treated as new, whatever their suffix
+  if [ -n "${NEW_NAMES:-}" ] && echo " $NEW_NAMES " | grep -q " $name "; then
+    tools/seed_run.sh "$name" quick $all 2>&1 | grep " exit=" >> "$out"; continue
+  fi
   case "$name" in
     *$suffix) tools/seed_run.sh "$name" quick $all 2>&1 | grep " exit=" >> "$out" ;;
     *)        tools/seed_run.sh "$name" quick $changed 2>&1 | grep " exit=" >> "$out" ;;
